@@ -1,6 +1,6 @@
 (* C17 - results are independent of buffer provenance; arguments are never modified. *)
 From Coq Require Import List ZArith Bool Arith.
-From Pico Require Import Base.Res Base.Mach Wire.Wire Schema.Types Schema.Scalar Ref.Ref Schema.ScalarProofs Enc.Enc Enc.EncProofs Enc.CBuf.
+From Pico Require Import Base.Res Base.Mach Wire.Wire Schema.Types Schema.Scalar Ref.Ref Schema.ScalarProofs Enc.Enc Enc.EncProofs Enc.CBuf Schema.Gen Schema.Interp Schema.EncSpec Schema.EncProgProofs.
 Import ListNotations.
 Open Scope nat_scope.
 
@@ -28,6 +28,13 @@ Theorem C17_position_independent : forall field fn buf p ok,
   any_bytes field fn buf = Ok ((if ok then buf ++ spec_ld field p else buf), ok).
 Proof. exact any_bytes_spec. Qed.
 
+(* whole messages, any program, any nesting depth: what Encode appends to a buffer is what it writes into an empty one -
+   the bytes already in the buffer (a reused buffer's earlier content below len) are never read and never changed *)
+Theorem C17_encode_appends_only : forall fuel progs idx m buf, msg_ok fuel progs idx m = true ->
+  enc_msg fuel progs idx m buf =
+  match enc_msg fuel progs idx m [] with Ok (b, ok) => Ok ((buf ++ b)%list, ok) | Panic => Panic end.
+Proof. exact enc_append_only. Qed.
+
 (* PARTIAL: composing these per-primitive refinements into "Marshal over any cbuf = pico_marshal"
    for whole encoder programs is not carried out in Coq; MarshalBuffer/NewEncoderBuffer = Marshal is
    validated over (len, cap, prior content) including tight capacities that force growth in the
@@ -38,6 +45,7 @@ Example C17_nonvacuous : view (append_c (fun _ _ => [9; 9]%Z) {| arr := [1; 2; 7
   view (append_c (fun _ _ => []) {| arr := [1; 2; 7; 7]%Z; len := 2 |} [5]%Z) = [1; 2; 5]%Z.
 Proof. split; vm_compute; reflexivity. Qed.
 
+Print Assumptions C17_encode_appends_only.
 Print Assumptions C17_append.
 Print Assumptions C17_reslice.
 Print Assumptions C17_copy.
